@@ -1,5 +1,214 @@
-use serde_json::{json, Value};
+// `csvrt` mode (C11): build Tx values from a spec through the public types, write them with the
+// real CSV writer, read them back with the real parser and conversion, write again.
 
-pub fn run_csvrt_case(_case: &Value) -> Value {
-    json!({"harness_error": "not implemented"})
+use std::str::FromStr;
+
+use rust_decimal::Decimal;
+use serde_json::{json, Map, Value};
+
+use acb::portfolio::io::tx_csv::{parse_tx_csv, write_txs_to_csv, TxCsvParseOptions};
+use acb::portfolio::{
+    Affiliate, BuyTxSpecifics, CsvTx, Currency, CurrencyAndExchangeRate, RocTxSpecifics,
+    SFLInput, SellTxSpecifics, SflaTxSpecifics, SplitRatio, SplitTxSpecifics, Tx,
+    TxActionSpecifics,
+};
+use acb::util::date::parse_standard_date;
+use acb::util::decimal::{
+    GreaterEqualZeroDecimal, LessEqualZeroDecimal, PosDecimal,
+};
+use acb::util::rw::{DescribedReader, WriteHandle};
+
+fn dec(v: &Value, k: &str) -> Result<Decimal, String> {
+    let s = v.get(k).and_then(|x| x.as_str()).ok_or(format!("spec missing {k}"))?;
+    Decimal::from_str_exact(s).map_err(|e| format!("spec {k}={s}: {e}"))
+}
+
+fn opt_dec(v: &Value, k: &str) -> Result<Option<Decimal>, String> {
+    match v.get(k).and_then(|x| x.as_str()) {
+        Some(s) => Decimal::from_str_exact(s).map(Some).map_err(|e| format!("spec {k}={s}: {e}")),
+        None => Ok(None),
+    }
+}
+
+fn cur_rate(v: &Value, ck: &str, rk: &str) -> Result<Option<CurrencyAndExchangeRate>, String> {
+    match v.get(ck).and_then(|x| x.as_str()) {
+        None => Ok(None),
+        Some(c) => {
+            let cur = Currency::new(c);
+            let rate = match opt_dec(v, rk)? {
+                Some(r) => PosDecimal::try_from(r)?,
+                None => PosDecimal::one(),
+            };
+            Ok(Some(CurrencyAndExchangeRate::try_new(cur, rate)?))
+        }
+    }
+}
+
+fn tx_from_spec(v: &Value, idx: u32) -> Result<Tx, String> {
+    let action = v["action"].as_str().unwrap_or("");
+    let specs = match action {
+        "Buy" | "Sell" => {
+            let common = BuyTxSpecifics {
+                shares: PosDecimal::try_from(dec(v, "shares")?)?,
+                amount_per_share: GreaterEqualZeroDecimal::try_from(dec(v, "aps")?)?,
+                commission: GreaterEqualZeroDecimal::try_from(
+                    opt_dec(v, "comm")?.unwrap_or(Decimal::ZERO),
+                )?,
+                tx_currency_and_rate: cur_rate(v, "cur", "fx")?
+                    .unwrap_or_else(CurrencyAndExchangeRate::default),
+                separate_commission_currency: cur_rate(v, "ccur", "cfx")?,
+            };
+            if action == "Buy" {
+                TxActionSpecifics::Buy(common)
+            } else {
+                let sfl = match v.get("sfl") {
+                    Some(s) if !s.is_null() => Some(SFLInput {
+                        superficial_loss: LessEqualZeroDecimal::try_from(dec(s, "amount")?)?,
+                        force: s["force"].as_bool().unwrap_or(false),
+                    }),
+                    _ => None,
+                };
+                TxActionSpecifics::Sell(SellTxSpecifics::from_common_buy_sell_attrs(&common, sfl))
+            }
+        }
+        "RoC" => TxActionSpecifics::Roc(RocTxSpecifics {
+            amount_per_held_share: GreaterEqualZeroDecimal::try_from(dec(v, "aps")?)?,
+            tx_currency_and_rate: cur_rate(v, "cur", "fx")?
+                .unwrap_or_else(CurrencyAndExchangeRate::default),
+        }),
+        "SfLA" => TxActionSpecifics::Sfla(SflaTxSpecifics {
+            shares_affected: PosDecimal::try_from(dec(v, "shares")?)?,
+            amount_per_share: PosDecimal::try_from(dec(v, "aps")?)?,
+        }),
+        "Split" => {
+            let s = &v["split"];
+            TxActionSpecifics::Split(SplitTxSpecifics {
+                ratio: SplitRatio {
+                    pre_split: PosDecimal::try_from(dec(s, "pre")?)?,
+                    post_split: PosDecimal::try_from(dec(s, "post")?)?,
+                    reverse_integer_only: s["int_only"].as_bool().unwrap_or(false),
+                },
+            })
+        }
+        other => return Err(format!("spec: unknown action {other}")),
+    };
+    let af = match v.get("af").and_then(|a| a.as_str()) {
+        Some("__global__") => Affiliate::global(),
+        Some(a) => Affiliate::from_strep(a),
+        None => Affiliate::default(),
+    };
+    Ok(Tx {
+        security: v["sec"].as_str().unwrap_or("").to_string(),
+        trade_date: parse_standard_date(v["td"].as_str().unwrap_or("")).map_err(|e| e.to_string())?,
+        settlement_date: parse_standard_date(v["sd"].as_str().unwrap_or("")).map_err(|e| e.to_string())?,
+        action_specifics: specs,
+        memo: v.get("memo").and_then(|m| m.as_str()).unwrap_or("").to_string(),
+        affiliate: af,
+        read_index: idx,
+    })
+}
+
+fn car_json(c: &CurrencyAndExchangeRate) -> Value {
+    json!({"cur": c.currency.as_str(), "rate": c.exchange_rate.to_string()})
+}
+
+pub fn tx_to_json(tx: &Tx) -> Value {
+    let mut o = Map::new();
+    o.insert("sec".into(), json!(tx.security));
+    o.insert("td".into(), json!(tx.trade_date.to_string()));
+    o.insert("sd".into(), json!(tx.settlement_date.to_string()));
+    o.insert("action".into(), json!(tx.action().pretty_str()));
+    o.insert("memo".into(), json!(tx.memo));
+    o.insert("af_id".into(), json!(tx.affiliate.id()));
+    o.insert("af_registered".into(), json!(tx.affiliate.registered()));
+    o.insert("af_global".into(), json!(tx.affiliate.is_global()));
+    o.insert("read_index".into(), json!(tx.read_index));
+    match &tx.action_specifics {
+        TxActionSpecifics::Buy(b) => {
+            o.insert("shares".into(), json!(b.shares.to_string()));
+            o.insert("aps".into(), json!(b.amount_per_share.to_string()));
+            o.insert("comm".into(), json!(b.commission.to_string()));
+            o.insert("txcur".into(), car_json(&b.tx_currency_and_rate));
+            o.insert("ccur".into(), b.separate_commission_currency.as_ref().map(car_json).unwrap_or(Value::Null));
+        }
+        TxActionSpecifics::Sell(b) => {
+            o.insert("shares".into(), json!(b.shares.to_string()));
+            o.insert("aps".into(), json!(b.amount_per_share.to_string()));
+            o.insert("comm".into(), json!(b.commission.to_string()));
+            o.insert("txcur".into(), car_json(&b.tx_currency_and_rate));
+            o.insert("ccur".into(), b.separate_commission_currency.as_ref().map(car_json).unwrap_or(Value::Null));
+            o.insert(
+                "sfl".into(),
+                b.specified_superficial_loss
+                    .as_ref()
+                    .map(|s| json!({"amount": s.superficial_loss.to_string(), "force": s.force}))
+                    .unwrap_or(Value::Null),
+            );
+        }
+        TxActionSpecifics::Roc(r) => {
+            o.insert("aps".into(), json!(r.amount_per_held_share.to_string()));
+            o.insert("txcur".into(), car_json(&r.tx_currency_and_rate));
+        }
+        TxActionSpecifics::Sfla(s) => {
+            o.insert("shares".into(), json!(s.shares_affected.to_string()));
+            o.insert("aps".into(), json!(s.amount_per_share.to_string()));
+        }
+        TxActionSpecifics::Split(s) => {
+            o.insert(
+                "split".into(),
+                json!({"pre": s.ratio.pre_split.to_string(), "post": s.ratio.post_split.to_string(),
+                       "int_only": s.ratio.reverse_integer_only}),
+            );
+        }
+    }
+    Value::Object(o)
+}
+
+fn write_txs(txs: &Vec<Tx>) -> Result<String, String> {
+    let csv_txs: Vec<CsvTx> = txs.iter().map(|t| t.to_csvtx()).collect();
+    let mut buf = Vec::<u8>::new();
+    write_txs_to_csv(&csv_txs, &mut buf).map_err(|e| e.to_string())?;
+    String::from_utf8(buf).map_err(|e| e.to_string())
+}
+
+fn read_txs(text: &str) -> Result<(Vec<Tx>, String), String> {
+    let (errh, errbuf) = WriteHandle::string_buff_write_handle();
+    let mut errh = errh;
+    let mut reader = DescribedReader::from_string("roundtrip.csv".into(), text.to_string());
+    let csv_txs = parse_tx_csv(&mut reader, 0, &TxCsvParseOptions::default(), &mut errh)?;
+    let mut txs = Vec::new();
+    for c in csv_txs {
+        txs.push(Tx::try_from(c)?);
+    }
+    let w = errbuf.borrow().as_str().to_string();
+    Ok((txs, w))
+}
+
+pub fn run_csvrt_case(case: &Value) -> Value {
+    let specs = match case.get("txs").and_then(|t| t.as_array()) {
+        Some(s) => s,
+        None => return json!({"harness_error": "no txs"}),
+    };
+    let mut txs = Vec::new();
+    for (i, s) in specs.iter().enumerate() {
+        match tx_from_spec(s, i as u32) {
+            Ok(t) => txs.push(t),
+            Err(e) => return json!({"spec_error": e, "at": i}),
+        }
+    }
+    let original: Vec<Value> = txs.iter().map(tx_to_json).collect();
+    let bytes1 = match write_txs(&txs) {
+        Ok(b) => b,
+        Err(e) => return json!({"write1_error": e, "original": original}),
+    };
+    let (txs2, warnings) = match read_txs(&bytes1) {
+        Ok(t) => t,
+        Err(e) => return json!({"read_error": e, "bytes1": bytes1, "original": original}),
+    };
+    let reread: Vec<Value> = txs2.iter().map(tx_to_json).collect();
+    let bytes2 = match write_txs(&txs2) {
+        Ok(b) => b,
+        Err(e) => return json!({"write2_error": e, "bytes1": bytes1, "original": original, "reread": reread}),
+    };
+    json!({"bytes1": bytes1, "bytes2": bytes2, "original": original, "reread": reread, "warnings": warnings})
 }
